@@ -208,6 +208,18 @@ def run(ctx) -> None:
     _check_provided_flag(ctx)
     n = check_heuristics(ctx, 'O4', only_attrs={'gradient', 'layerthickness', 'gradient_1', 'gradient_2', 'gradient_3', 'gradient_4'})
     ctx.floor('O4', n, 2, 'gradient/thickness heuristic sites')
+    ctx.rule('O8', 'the redrilling trigger is exactly produced temperature < (1 - max drawdown) x initial (C05 D4): a floor or other term lets a '
+                   'faster drawdown end with a higher reservoir temperature')
+    ctx.rule('O9', 'levelized cost vs cost inputs: cogeneration terms stay with their own product (C01 R11); the thermal-storage economics uses a '
+                   'supplied per-well cost exactly, zero included (C03 T9)')
+    from gxstat.runner import Renamed
+    from rules.c05 import check_d4
+    check_d4(Renamed(ctx, {'D4': 'O8'}, key_filter=lambda k: True))
+    from rules.c01 import check_product_suffix_discipline
+    n9 = check_product_suffix_discipline(ctx, 'O9')
+    ctx.floor('O9', n9, 10, 'per-product terms of the cogeneration arms')
+    from rules.c03 import check_sutra
+    check_sutra(Renamed(ctx, {'T9': 'O9'}, key_filter=lambda k: True))
     ctx.undecided('BHT vs depth/gradient through the layer search', 'Ramey temperature drop vs flow rate', 'NPV vs every cost input through the '
                   'correlations', 'BICYCLE arm monotonicity (mixed-sign tax terms)')
     ctx.exhaustive = True
